@@ -3,6 +3,8 @@ import ComposeVerif.Model.Consistency
 import ComposeVerif.Spec.Consistency
 import ComposeVerif.Model.Validate
 import ComposeVerif.Model.NormalizeDeps
+import ComposeVerif.Model.ConsistencyGlue
+import ComposeVerif.Model.Merge
 /-! line-protocol ops for C10:
 `c10.consistency` (model of `loader.checkConsistency` + outcomes over all iteration orders + spec decision),
 `c10.cycleBatch` (model of `graph.CheckCycle` over a range of digraphs),
@@ -162,8 +164,40 @@ def cyclePathOp : Handler := fun args =>
     | none => Json.mkObj [("path", Json.null)]
     | some c => Json.mkObj [("path", Json.arr (c.map Json.str).toArray)]
 
+/-- the glue around the two checks: predicted outcome class of a whole load under the four combinations of
+`SkipValidation` (first letter) / `SkipConsistencyCheck` (second letter), from the class of the structural stage (`v`,
+known to the generator) and the model of `checkConsistency` on the project as it is loaded with both checks skipped;
+plus the option records the model says the caller, an included project and an `extends` base see -/
+def glueOp : Handler := fun args =>
+  let p := projOfJson (getObj args "proj")
+  let v := getStr args "v"
+  let out := checkConsistency p
+  let c := match out with | none => "ok" | some _ => "consistency"
+  let mk (sv sc : Bool) : Json :=
+    Json.str (Glue.combineIncl { skipValidation := sv, skipConsistencyCheck := sc } (getStrList args "vinc") v c)
+  let flags (o : Glue.Opts) : Json :=
+    Json.arr #[Json.bool o.skipValidation, Json.bool o.skipNormalization, Json.bool o.resolvePaths,
+               Json.bool o.skipConsistencyCheck, Json.bool o.skipExtends, Json.bool o.skipInclude, Json.bool o.skipDefaultValues]
+  let per (r : Glue.Role) : Json :=
+    Json.mkObj ([("ff", (false, false)), ("ft", (false, true)), ("tf", (true, false)), ("tt", (true, true))].map fun (k, b) =>
+      (k, flags (Glue.optsFor { skipValidation := b.1, skipConsistencyCheck := b.2 } r)))
+  Json.mkObj [("ff", mk false false), ("ft", mk false true), ("tf", mk true false), ("tt", mk true true),
+              ("alts", altsJson p (consistencyAlts p)),
+              ("main", per .main), ("included", per .included), ("extended", per .extended)]
+
+/-- `override.Merge` followed by `validation.Validate` (Props/C10Merge.lean) -/
+def mergeValidateOp : Handler := fun args =>
+  match CV.Val.ofJson (getObj args "a"), CV.Val.ofJson (getObj args "b") with
+  | .ok a, .ok b =>
+    match CV.Merge.merge a b with
+    | .ok m => Json.mkObj [("merge", Json.str "ok"), ("alts", Json.arr (((CV.Validate.failures m).map voutJson).toArray))]
+    | .err e => Json.mkObj [("merge", Json.str ("err:" ++ e))]
+    | .panic s => Json.mkObj [("merge", Json.str ("panic:" ++ s))]
+  | _, _ => Json.mkObj [("bad", Json.str "tree")]
+
 def handlers : List (String × Handler) :=
   [("c10.consistency", consistency), ("c10.cycle", cycle), ("c10.consistent", consistent),
-   ("c10.cycleBatch", cycleBatch), ("c10.validate", validateOp), ("c10.normDeps", normDepsOp), ("c10.cyclePath", cyclePathOp)]
+   ("c10.cycleBatch", cycleBatch), ("c10.validate", validateOp), ("c10.normDeps", normDepsOp), ("c10.cyclePath", cyclePathOp),
+   ("c10.glue", glueOp), ("c10.mergeValidate", mergeValidateOp)]
 
 end CV.Ops.C10
